@@ -259,6 +259,6 @@ func specParsed(p *FrameParser) bool {
 //@ ensures[C10.nss.ok]     ret1 == nil ==> ret0.Source != nil && ret0.Sink != nil && ref(ret0.Source) != ref(ret0.Sink) && selb(isOpen, ref(ret0.Source)) && selb(isOpen, ref(ret0.Sink)) && !ret0.MustClosePort
 //@ ensures[C10.nss.fresh]  ret1 == nil ==> !old(selb(isOpen, ref(ret0.Source))) && !old(selb(isOpen, ref(ret0.Sink)))
 //@ ensures[C10.nss.noleak] forallint(h, (ret1 != nil || (h != ref(ret0.Source) && h != ref(ret0.Sink))) && !old(selb(isOpen, h)) ==> !selb(isOpen, h))
-//@ ensures[C10.nss.others] forallint(h, old(selb(isOpen, h)) ==> selb(isOpen, h))
+//@ ensures[C10.nss.others] forallint(h, old(selb(isOpen, h)) ==> selb(isOpen, h) && sel(closeN, h) == old(sel(closeN, h)))
 //@ ensures[C10.nss.wrap]   ret1 != nil ==> noRepoErr(ret1)
 //@ modifies ghost isOpen, ghost closeN
